@@ -290,9 +290,13 @@ func Inject(r *rng.R, p *Program) (Injection, bool) {
 			if d == nil {
 				return "", false
 			}
-			d.Fields[0].Name, d.Fields[0].GoName = "thing", ""
-			d.Fields[1].Name, d.Fields[1].GoName = []string{"getThing", "GetThing", "isSetThing", "IsSetThing", "get_thing"}[r.Intn(5)], ""
-			return "fields thing and " + d.Fields[1].Name, true
+			a, b := 0, 1
+			if r.Bool() { // the accessor-like name may come before or after the field it shadows
+				a, b = 1, 0
+			}
+			d.Fields[a].Name, d.Fields[a].GoName = "thing", ""
+			d.Fields[b].Name, d.Fields[b].GoName = []string{"getThing", "GetThing", "isSetThing", "IsSetThing", "get_thing", "is_set_thing"}[r.Intn(6)], ""
+			return fmt.Sprintf("fields thing (#%d) and %s (#%d)", a, d.Fields[b].Name, b), true
 		}},
 		{"D24-type-named-like-primitive", "K:D24", func() (string, bool) {
 			// a user type whose Go name is that of a primitive's mangled name, used next to the primitive
